@@ -72,7 +72,7 @@ func (e *Engine) invoke(st *State, fv FuncV, args []Value, in ssa.Instruction) {
 			return
 		}
 	}
-	if ov, ok := e.overrides[name]; ok && ov != st.top().fn {
+	if ov, ok := e.overrides[name]; ok && ov != st.top().fn && (e.overrideGroup[ov] == "" || st.aux["ovr:"+e.overrideGroup[ov]] == 1) {
 		e.stubsUsed["override:"+name]++
 		fn = ov
 		name = fnName(fn)
@@ -255,7 +255,7 @@ func (e *Engine) builtin(st *State, fr *Frame, b *ssa.Builtin, c *ssa.CallCommon
 	case "recover":
 		return Iface{}
 	case "ssa:wrapnilchk":
-		p := args[0].(Ptr)
+		p := e.ptrOf(st, args[0])
 		if p.Obj == 0 {
 			e.goPanic(st, "value method called using nil pointer")
 		}
